@@ -55,7 +55,8 @@ def select_programs(tier):
              ["insub", fa, sub_with_value(v2), "not"],
              ["logic", "AND", ["cmp", ">", fa, raw(v1)], ["logic", "OR", ["insub", fb, sub_with_value(v3), "notin"], ["not", ["cmp", "=", fb, raw(v2)]]]]]
     joins = [None, ["join", "inner", U, ["on", ["logic", "AND", ["cmp", "=", fid, utid], ["cmp", "=", ux, raw(v3)]]]],
-             ["join", "left", ["q", "sq", sub_with_value(v1), "sq"], ["on", ["cmp", "=", fid, ["f", "sq", "x"]]]]]
+             ["join", "left", ["q", "sq", sub_with_value(v1), "sq"], ["on", ["cmp", "=", fid, ["f", "sq", "x"]]]],
+             ["join", "inner", ["q", "sq", sub_with_value(v2), "sq"], ["on", ["logic", "AND", ["cmp", "=", fid, ["f", "sq", "x"]], ["cmp", "<", ["f", "sq", "x"], raw(v4)]]]]]
     group = [None, [["groupby", [fa]], ["having", ["cmp", ">", ["agg", "SUM", fb], raw(v4)]]]]
     order = [None, [fa], [["arith", "+", fa, raw(v1)]]]
     page = [[], [["limit", 3]], [["limit", 3], ["offset", 2]], [["offset", 2]]]
@@ -146,6 +147,9 @@ def value_sweep(tier):
         yield {"calls": [["from", T], ["select", [["coalesce", [fa, raw(v)]], ["case", [[["cmp", "=", fa, raw(v)], raw(v)]], raw(v)]]]]}
         yield {"calls": [["from", T], ["select", [fa]], ["where", ["cmp", "=", fa, raw(v)]], ["union", {"calls": [["from", U], ["select", [ux]], ["where", ["cmp", "=", uy, raw(v)]]]}]]}
     yield {"calls": [["from", T], ["select", [["array", [raw(1), raw("a")]], ["json", ["$dict", [["k", 1]]]], ["interval", {"days": 1}]]]]}
+    yield {"calls": [["from", T], ["select", [fa]], ["where", ["cmp", "=", fb, raw(["$list", [1, None, "x"]])]]]}
+    yield {"calls": [["from", T], ["select", [["array", [raw(1), ["null"]]], ["array", [raw(["$list", [1, 2]]), raw(["$list", [3, None]])]]]]]}
+    yield {"calls": [["into", T], ["insert", [raw(["$list", [["$list", [1, 2]], ["$list", [None]]]]), raw(0)]]]}
     yield {"calls": [["from", T], ["select", [["extract", "year", fa], ["cast", raw(5), "INTEGER"]]], ["where", ["cmp", "=", ["extract", "day", ["lit", ["$date", "2020-01-02"]]], raw(2)]]]}
     yield {"calls": [["from", T], ["select", [fa]], ["where", ["jsonop", "get_json_value", ["f", "t", "j"], "k'"]]]}
     yield {"calls": [["from", T], ["select", [fa]], ["where", ["jsonop", "contains", ["f", "t", "j"], ["$dict", [["a", 1]]]]]]}
@@ -261,7 +265,14 @@ def expected_values(node, out):
         out.append(node[2])
         return
     if tag == "array":
-        out.append([prog.pyval(x[1]) for x in node[1]])
+        def elem(x):
+            if x[0] == "null":
+                return None
+            if x[0] == "array":
+                return [elem(y) for y in x[1]]
+            return prog.pyval(x[1])
+
+        out.append([elem(x) for x in node[1]])
         return
     if tag in ("valnp", "json", "interval", "param", "literal", "f", "col", "name", "t", "cte", "sym", "columns",
                "force_index", "use_index", "for_update", "top", "modifier", "star", "null"):
